@@ -247,7 +247,7 @@ func runC09(c *eng.Ctx) {
 			okObj := false
 			if len(call.Args) >= 1 {
 				prm := f.Obj.Type().(*types.Signature).Params().At(0)
-				for _, src := range valueSources(info, f.Decl.Body, call.Args[len(call.Args)-1], 4) {
+				for _, src := range valueSources(info, f.Decl.Body, argLike(info, call, len(call.Args)-1, typeNamed("unstructured", "Unstructured")), 4) {
 					src = ast.Unparen(src)
 					if ta, isTA := src.(*ast.TypeAssertExpr); isTA {
 						src = ast.Unparen(ta.X)
@@ -808,12 +808,12 @@ func runC09R4(c *eng.Ctx, r *eng.RuleCtx) {
 	convert, _ := p.Object(pkgBctx, "ConvertBindingContextList").(*types.Func)
 	prepare := p.Method(pkgHook, "Hook", "prepareBindingContextJsonFile")
 	version := p.Field(pkgCfg, "HookConfig", "Version")
-	ctxPrm := f.Obj.Type().(*types.Signature).Params().At(1)
+	ctxPrm := paramLike(f.Obj.Type().(*types.Signature), 1, sliceOfNamed("binding_context", "BindingContext"))
 	chainOK := false
 	var pos token.Pos = f.Decl.Pos()
 	for _, call := range callsIn(info, f.Decl.Body, isObj(prepare)) {
 		pos = call.Pos()
-		v, isV := eng.SelObj(info, call.Args[0]).(*types.Var)
+		v, isV := eng.SelObj(info, argLike(info, call, 0, typeNamed("binding_context", "BindingContextList"))).(*types.Var)
 		if !isV {
 			continue
 		}
@@ -836,7 +836,7 @@ func runC09R4(c *eng.Ctx, r *eng.RuleCtx) {
 	r.Check(chainOK, f.Key+" context-file-source", pos, "prepareBindingContextJsonFile(ConvertBindingContextList(h.Config.Version, UpdateSnapshots(context)))", "the binding context file is not rendered from the task's contexts with refreshed snapshots in the hook's config version")
 	if pf := r.NeedFunc(pkgHook + ".(*Hook).prepareBindingContextJsonFile"); pf != nil {
 		pinfo := pf.Pkg.TypesInfo
-		prm := pf.Obj.Type().(*types.Signature).Params().At(0)
+		prm := paramLike(pf.Obj.Type().(*types.Signature), 0, typeNamed("binding_context", "BindingContextList"))
 		var data types.Object
 		eng.InspectNoLit(pf.Decl.Body, func(n ast.Node) bool {
 			if as, ok := n.(*ast.AssignStmt); ok && len(as.Rhs) == 1 {
@@ -860,8 +860,8 @@ func runC09R4(c *eng.Ctx, r *eng.RuleCtx) {
 		c.Touch(cf)
 		cinfo := cf.Pkg.TypesInfo
 		g := p.GraphOf(cf)
-		prm := convert.Type().(*types.Signature).Params().At(1)
-		verPrm := convert.Type().(*types.Signature).Params().At(0)
+		prm := paramLike(convert.Type().(*types.Signature), 1, sliceOfNamed("binding_context", "BindingContext"))
+		verPrm := paramLike(convert.Type().(*types.Signature), 0, func(t types.Type) bool { b, ok := t.Underlying().(*types.Basic); return ok && b.Kind() == types.String })
 		var el *eng.ElemLoop
 		for _, l := range elemLoopsOver(cinfo, cf.Decl.Body, func(x ast.Expr) bool { return eng.SelObj(cinfo, x) == prm }) {
 			el = l
